@@ -134,6 +134,7 @@ func v06NewServer(id, dir string) *Server {
 	cfg.DataDir = dir
 	cfg.Clustering.ServerID = id
 	cfg.LogSilent = true
+	cfg.LogRecovery = true // otherwise finishedRecovery switches the log output back on
 	cfg.Telemetry.Enabled = false
 	cfg.Groups.ConsumerTimeout = time.Hour
 	cfg.Groups.CoordinatorTimeout = time.Hour
@@ -541,6 +542,48 @@ func (r *v06Run) step(id int, step map[string]interface{}) v06Event {
 		r.mode = "live"
 	case "GoLive":
 		if r.mode != "replay" || r.nrep != 0 {
+			skip()
+			break
+		}
+		r.mode = "live"
+	case "Install":
+		// a live server is handed a snapshot (Raft InstallSnapshot): Server.Restore on
+		// the server that HAS state; the entries behind the snapshot follow as new ones
+		if r.mode != "live" || r.snapBytes == nil || r.pending != nil {
+			skip()
+			break
+		}
+		func() {
+			defer func() {
+				if p := recover(); p != nil {
+					obs.Err = fmt.Sprintf("panic:%v", p)
+				}
+			}()
+			if err := r.a.Restore(io.NopCloser(bytes.NewReader(r.snapBytes))); err != nil {
+				obs.Err = "other:" + err.Error()
+			}
+		}()
+		r.a.goroutineWait.Wait()
+		r.applied = r.snapIdx
+		r.mode = "catchup"
+	case "Catchup":
+		if r.mode != "catchup" || int(r.applied) >= len(r.log) {
+			skip()
+			break
+		}
+		o := r.log[r.applied]
+		idx := r.applied + 1
+		obs.Err = v06ApplyErr(r.a, v06BuildOp(o), idx, false)
+		r.a.goroutineWait.Wait()
+		if obs.Err == "" && vStr(o, "op") == "CreateStream" {
+			v06WriteMarkers(r.dirA, vStr(o, "s"), int(vInt(o, "n")), idx)
+		}
+		r.applied = idx
+		a = vStr(o, "op")
+		obs.A = a
+		args["o"], args["rec"] = o, false
+	case "CaughtUp":
+		if r.mode != "catchup" || int(r.applied) < len(r.log) {
 			skip()
 			break
 		}
